@@ -324,6 +324,30 @@ def entry_points(d, v, tmp):
             return r[0] if r else None
         return run
 
+    def fs_after_other_reads(read, same_source):
+        # history: the file was first read with no version named and with the other version named (whatever came of it), through
+        # the same source object or another one; the read which names v comes last and is answered as if it were the first
+        def run():
+            root = fs_dir()
+            write_fs(root, d)
+            src = stix2.FileSystemSource(root)
+            for v0 in (None, other):
+                for first in (lambda: src.get(sid, version=v0), lambda: src.all_versions(sid, version=v0), lambda: src.query([Filter("id", "=", sid)], version=v0)):
+                    try:
+                        first()
+                    except Exception:
+                        pass
+            if not same_source:
+                src = stix2.FileSystemSource(root)
+            if read == "get":
+                return src.get(sid, version=v)
+            r = src.all_versions(sid, version=v) if read == "all_versions" else src.query([Filter("id", "=", sid)], version=v)
+            return r[0] if r else None
+        return run
+
+    if v is not None:
+        eps += [("FileSystemSource reads with no / the other version, then %s(version) [%s]" % (rd, "same source" if same else "another source"), fs_after_other_reads(rd, same), "class")
+                for rd in ("get", "all_versions", "query") for same in (True, False)]
     us = tsor.text_us(d["modified"]) if isinstance(d.get("modified"), str) else None
     if v is not None and us is not None and us % 1000 == 0:
         # (only where both readings keep the same modified time: a 2.0 reading cuts microseconds off, which makes another version)
